@@ -385,6 +385,7 @@ func runC20(c *Ctx) {
 
 	ruleGoCapture(c)
 	ruleNoSharedMutableGlobals(c)
+	rulePanicUnderLock(c)
 
 	ruleResultOnEveryExit(c) // "never deadlocks": the command loop blocks on the delivery result
 	ruleGoBounded(c)
@@ -509,6 +510,34 @@ func runC20(c *Ctx) {
 				R.Ob(c.siteKey(in, "ErrServerClosed only when done is closed"), c.P.InstrPos(in), seen["select-recv:Server.done"] && !seen["builtin:close"], "ErrServerClosed returned on a path that did not find done closed")
 			}
 		})
+		// ... and if it is closed, that is all that happens: every return feasible on the "done is closed" edge reports
+		// ErrServerClosed, and nothing is closed, started or waited for on the way
+		{
+			fbClosed := c.F.feasibleBlocks(f, HSet(`select[recv:Server.done|default]#0 == 0`))
+			nRet := 0
+			allInstrs(f, func(in ssa.Instruction) {
+				if !fbClosed[in.Block()] || in.Block() == f.Recover {
+					return
+				}
+				if r, ok := in.(*ssa.Return); ok {
+					nRet++
+					rv := returnedValues(r)
+					R.Ob(c.siteKey(in, "already closed => ErrServerClosed"), c.P.InstrPos(in), len(rv) > 0 && describe(rv[0]) == "ErrServerClosed", g+" can return "+describe(rv[0])+" although the server was already closed")
+				}
+				ls := c.stdLabels(in)
+				acts := labelHas(ls, "icall:iface:(net.Listener).Close") || isStaticCall(in, "(*Conn).Close") || isStaticCall(in, "(*sync.WaitGroup).Wait")
+				if _, isGo := in.(*ssa.Go); isGo {
+					acts = true
+				}
+				if sel, isSel := in.(*ssa.Select); isSel && sel.Blocking {
+					acts = true
+				}
+				if acts {
+					R.Ob(c.siteKey(in, "already closed => no further action"), c.P.InstrPos(in), false, "when the server is already closed "+g+" still reaches this action: a second call closes the listeners again or waits for connections instead of reporting ErrServerClosed")
+				}
+			})
+			R.Ob(g+"/has an already-closed return", c.P.Pos(f.Pos()), nRet >= 1, "no return reachable on the already-closed edge")
+		}
 		nClose := 0
 		allInstrs(f, func(in ssa.Instruction) {
 			if call, ok := in.(*ssa.Call); ok {
@@ -715,4 +744,73 @@ func ruleNoSharedMutableGlobals(c *Ctx) {
 		})
 	}
 	R.Ob("package functions/scanned for writes to package-level aggregates", "-", nFuncs >= 50, fmt.Sprintf("%d functions scanned", nFuncs))
+}
+
+// rulePanicUnderLock (C20, C13): a mutex that is released by an explicit Unlock (not a deferred one) stays locked when
+// the code in between panics; the panic is recovered higher up (the handlers and delivery goroutines recover), and the
+// recovery path then blocks forever on the same mutex.
+func rulePanicUnderLock(c *Ctx) {
+	R := c.R
+	R.Rule("R-no-panic-under-lock", "E7 may-held locks", "no panic statement is reachable while a package mutex is held whose release is not deferred", 1)
+	nLockFuncs := 0
+	for _, f := range c.P.AllFuncs() {
+		if !inSmtp(f) || len(f.Blocks) == 0 {
+			continue
+		}
+		deferred := map[string]bool{}
+		hasLock := false
+		allInstrs(f, func(in ssa.Instruction) {
+			if name, isLock, ok := lockOp(in); ok {
+				if _, isDefer := in.(*ssa.Defer); isDefer && !isLock {
+					deferred[name] = true
+				}
+				if isLock {
+					hasLock = true
+				}
+			}
+		})
+		if !hasLock {
+			continue
+		}
+		nLockFuncs++
+		// may-held locks, forward, union at joins
+		in := map[*ssa.BasicBlock]map[string]bool{f.Blocks[0]: {}}
+		work := []*ssa.BasicBlock{f.Blocks[0]}
+		for len(work) > 0 {
+			b := work[len(work)-1]
+			work = work[:len(work)-1]
+			cur := copySet(in[b])
+			for _, x := range b.Instrs {
+				if _, isDefer := x.(*ssa.Defer); isDefer {
+					continue
+				}
+				if name, isLock, ok := lockOp(x); ok {
+					if isLock {
+						cur[name] = true
+					} else {
+						delete(cur, name)
+					}
+				}
+				if _, isPanic := x.(*ssa.Panic); isPanic {
+					for l := range cur {
+						if !deferred[l] {
+							R.Ob(c.siteKey(x, "panic while "+l+" is held without a deferred unlock"), c.P.InstrPos(x), false, "this panic leaves "+l+" locked: the recovery path (fillRemaining after a recovered backend panic) blocks on it forever")
+						}
+					}
+				}
+			}
+			for _, sc := range b.Succs {
+				old, seen := in[sc]
+				merged := copySet(cur)
+				for l := range old {
+					merged[l] = true
+				}
+				if !seen || len(merged) != len(old) {
+					in[sc] = merged
+					work = append(work, sc)
+				}
+			}
+		}
+	}
+	R.Ob("package functions/lock users scanned", "-", nLockFuncs >= 5, fmt.Sprintf("%d functions take a mutex", nLockFuncs))
 }
